@@ -16,6 +16,14 @@ FAMILIES = ['isa_dp', 'isa_ls']
 _loaded = set()
 
 
+def available_tables():
+    """every spec/isa_*.py table module present on disk"""
+    import glob
+    import os
+    d = os.path.join(os.path.dirname(os.path.dirname(os.path.abspath(__file__))), 'spec')
+    return sorted(os.path.basename(p)[:-3] for p in glob.glob(os.path.join(d, 'isa_*.py')))
+
+
 def load_tables(mods=None):
     for m in (mods or FAMILIES):
         if m not in _loaded:
